@@ -122,6 +122,45 @@ void harness(void) {
 #endif
 #endif
 #endif
+#if MODE & 4
+    /* Remainder-chain form of the decode-back oracle (no division, no Horner product chain): with rem_0 = magnitude and
+     * rem_{i+1} = rem_i - d_i * base^(n-1-i) every step must stay non-negative and end below base^(n-1-i); then the digits
+     * are the base-b expansion of the magnitude (rem_n < base^0 = 1).  Each step mirrors one iteration of the implementation's
+     * own divide/subtract, so the solver discharges it locally - this is what makes base 10 tractable for ALL values. */
+    {
+        static const uval_t powt[] = POW_TABLE;  /* base^j, j = 0.. */
+        static const uint8_t maxd[] = MAXD_TABLE; /* largest digit whose product with base^j fits the width */
+        uval_t rem = mag;
+        size_t nd, j;
+        p = neg ? 1 : 0;
+        if (neg) VASSERT(full[0] == '-', "C14 negative signed decimal starts with '-'");
+        VASSERT(r > p, "C14 at least one digit");
+        nd = r - p;
+        VASSERT(nd <= sizeof powt / sizeof powt[0], "C14 no more digits than the width can need");
+        VASSERT(nd == 1 || full[p] != '0', "C14 no leading zero");
+        for (i = p; i < r; i++) {
+            int c = (unsigned char) full[i];
+            int d = (c >= '0' && c <= '9') ? c - '0' : ((c >= 'A' && c <= 'F') ? c - 'A' + 10 : 99);
+            uval_t pw, prod;
+            j = nd - 1 - (i - p);
+            pw = powt[j];
+            VASSERT(d < ebase, "C14 every character is an upper-case digit of the base");
+            VASSERT(d <= maxd[j], "C14 digit times its place value fits the width");
+            prod = (uval_t) d * pw;
+            VASSERT(prod <= rem, "C14 digit does not exceed what is left of the magnitude");
+            rem -= prod;
+            VASSERT(rem < pw, "C14 what is left is below the digit's place value (digits are the expansion of the magnitude)");
+        }
+        VASSERT(rem == 0, "C14 digits decode back to the magnitude");
+        VASSERT(full[r] == 0, "C14 full conversion is NUL-terminated at the returned length");
+#if !(MODE & 3)
+        VWITNESS("decoded");
+#if EBASE == 10
+        if (neg) VWITNESS("negative");
+#endif
+#endif
+    }
+#endif
 #if MODE & 2
 
     /* truncation: every length 0..FULL; everything at and behind t[len] holds an arbitrary fill byte that must
